@@ -38,7 +38,8 @@ pub fn kind_index(k: std::io::ErrorKind) -> usize {
 }
 
 pub fn show_span(s: u64) -> String {
-    if s < (1 << 32) {
+    // (script-chosen span ids are small or one of the two boundary values; ids drawn by the code under test are random)
+    if s < (1 << 32) || s >= u64::MAX - 1 {
         format!("{s}")
     } else {
         format!("f{s:x}")
@@ -780,8 +781,8 @@ fn gen_op(rng: &mut Rng, cl: &Client, g: &mut Gen, p: &Params) -> Op {
             Op::Call {
                 h: *rng.pick(&handles),
                 d,
-                tid: 100 + g.ncalls as u128,
-                span: 7000 + g.ncalls,
+                tid: if p.extreme && rng.chance(1, 4) { u128::MAX - g.ncalls as u128 } else { 100 + g.ncalls as u128 },
+                span: if p.extreme && rng.chance(1, 4) { u64::MAX - (g.ncalls % 2) } else { 7000 + g.ncalls },
                 sampled: rng.chance(1, 2),
                 body: 500 + g.ncalls,
             }
